@@ -67,6 +67,7 @@ def generate(rng: random.Random, tier: str) -> dict:
         wl["threads"] = _assign(rng, T, nparts, first=2)
         wl["sizes"] = {str(p): rng.choice([5, 6, 9, 20]) for t in wl["threads"] for p in t}
         wl["finaliser"] = rng.choice(["fresh"] + list(range(T)))
+        wl["part_base"] = rng.choice([0, 0, 95, 9990])
         cfg["kw"] = rng.choice([{}, {"ContentType": "image/tiff"}])
     elif scen == "cluster":
         W = rng.choice([1, 2, 2, 3])
@@ -88,7 +89,9 @@ def generate(rng: random.Random, tier: str) -> dict:
         wl["finaliser"] = rng.choice(["fresh", "fresh"] + list(range(T)))
         cfg["prepped"] = rng.random() < 0.6
         cfg["copy_per_task"] = rng.random() < 0.4
-        cfg["second_object"] = rng.random() < 0.3
+        cfg["second_object"] = rng.random() < 0.35
+        cfg["overlap_lifecycles"] = cfg["second_object"] and T >= 2 and rng.random() < 0.5
+        wl["part_base"] = rng.choice([0, 0, 95, 9990])
         cfg["kw"] = {}
     elif scen == "sink":
         T = rng.choice([1, 2, 2, 3, 4])
@@ -101,6 +104,7 @@ def generate(rng: random.Random, tier: str) -> dict:
             rng.shuffle(order)
         wl["final_order"] = order
         wl["finaliser"] = rng.choice(["orig"] + list(range(T)))
+        wl["part_base"] = rng.choice([0, 0, 95, 9990])
         cfg["keep_parts"] = rng.choice([None, None, False, True])
         cfg["place"] = rng.choice(["default", "base-exists", "base-nested", "base-relative", "xdev"])
         cfg["limits"] = _draw_limits(rng)
@@ -151,10 +155,10 @@ def _data(part: int, size: int) -> bytes:
     return chunk_bytes(part, size)
 
 
-def _drive(kernel: K.Kernel, ch: Chooser, log: Digest, results: Dict[str, Any]) -> Optional[Violation]:
+def _drive(kernel: K.Kernel, ch: Chooser, log: Digest, results: Dict[str, Any], on_done: Any = None) -> Optional[Violation]:
     """Run all spawned threads to completion; map thread errors / deadlock to violations."""
     try:
-        done = K.run_threads(kernel, ch, step_budget=STEP_BUDGET, log=log)
+        done = K.run_threads(kernel, ch, step_budget=STEP_BUDGET, log=log, on_done=on_done)
     except K.Deadlock as e:
         sig = "step-budget-exhausted" if str(e) == "budget" else "deadlock"
         return Violation(PROP, "O18.4", sig, {"state": str(e)[:300]})
@@ -185,6 +189,8 @@ def _exec_s3(record: dict, ch: Chooser, log: Digest) -> Outcome:
         "second_object": 0,
         "scenario_inproc": int(scen == "inproc"),
         "scenario_cluster": int(scen == "cluster"),
+        "overlapping_lifecycles": 0,
+        "part_numbers_near_10000": int(wl.get("part_base", 0) >= 9000),
     }
     getattr(S, "_state", {}).clear()
     fakes.install_fake_s3(s3)
@@ -222,6 +228,9 @@ def _exec_s3(record: dict, ch: Chooser, log: Digest) -> Outcome:
                 return pickle.loads(pickle.dumps(writers[key]))
 
             specs = wl["threads"]
+            base = int(wl.get("part_base", 0))
+            overlap = bool(cfg.get("overlap_lifecycles")) and len(keys) > 1 and len(specs) >= 2
+            writers_of: Dict[str, set] = {k: set() for k in keys}
             worker_copy: Dict[Tuple[int, str], Any] = {}
             for ti, spec in enumerate(specs):
                 if scen == "inproc":
@@ -242,42 +251,68 @@ def _exec_s3(record: dict, ch: Chooser, log: Digest) -> Outcome:
                             tw[key] = worker_copy[wk]
                 thread_writers[name] = tw
 
-                def body(name=name, parts=parts, tw=tw):
+                # overlapping lifecycles: every thread serves one object only, and an object is
+                # finalised as soon as its own writers are done - while the other is still writing
+                my_keys = [keys[ti % len(keys)]] if overlap else list(keys)
+
+                def body(name=name, parts=parts, tw=tw, my_keys=my_keys):
                     for p in parts:
-                        for key in keys:
+                        for key in my_keys:
                             w = tw[key] if tw[key] is not None else mk_copy(key)
                             data = _data(p + (100 if key != keys[0] else 0), sizes[p])
-                            sent[key][p] = data
-                            receipts[key][p] = w(p, data)
+                            sent[key][p + base] = data
+                            receipts[key][p + base] = w(p + base, data)
                     return True
 
                 kernel.spawn(name, body)
+                for key in my_keys:
+                    writers_of[key].add(name)
                 nthreads += 1
             res: Dict[str, Any] = {}
-            v = _drive(kernel, ch, log, res)
-            if v is None:
-                # finalise after every write has returned
-                fin = wl.get("finaliser", "fresh")
-                fin_results: Dict[str, Any] = {}
+            fin = wl.get("finaliser", "fresh")
+            fin_results: Dict[str, Any] = {}
 
-                def fin_body():
+            def fin_body(fkeys):
+                for key in fkeys:
+                    if fin == "fresh" or scen == "inproc":
+                        w = writers[key] if scen == "inproc" else mk_copy(key)
+                        if scen != "inproc":
+                            probes["finalise_on_copy_that_never_wrote"] = 1
+                    else:
+                        tname = sorted(thread_writers)[int(fin) % len(thread_writers)]
+                        w = thread_writers[tname][key] or mk_copy(key)
+                    parts = [receipts[key][p] for p in sorted(receipts[key])]
+                    fin_results[key] = w.finalise(parts)
+                return True
+
+            fprefix = "F" if scen == "inproc" else "W9.F"
+            if overlap:
+                probes["overlapping_lifecycles"] = 1
+                spawned = set()
+
+                def on_done(name, rec):
+                    if rec.error is not None:
+                        return
                     for key in keys:
-                        if fin == "fresh" or scen == "inproc":
-                            w = writers[key] if scen == "inproc" else mk_copy(key)
-                            if scen != "inproc":
-                                probes["finalise_on_copy_that_never_wrote"] = 1
-                        else:
-                            tname = sorted(thread_writers)[int(fin) % len(thread_writers)]
-                            w = thread_writers[tname][key] or mk_copy(key)
-                        parts = [receipts[key][p] for p in sorted(receipts[key])]
-                        fin_results[key] = w.finalise(parts)
-                    return True
+                        writers_of[key].discard(name)
+                        if not writers_of[key] and key not in spawned and receipts[key]:
+                            spawned.add(key)
+                            kernel.spawn(f"{fprefix}{keys.index(key)}", lambda key=key: fin_body([key]))
 
-                fname = "F" if scen == "inproc" else "W9.F"
-                kernel.spawn(fname, fin_body)
+                v = _drive(kernel, ch, log, res, on_done=on_done)
+                if v is None:
+                    for key in keys:  # an object none of whose writers got a part (cannot happen with T >= 2)
+                        if key not in spawned and receipts[key]:
+                            kernel.spawn(f"{fprefix}{keys.index(key)}", lambda key=key: fin_body([key]))
+                    v = _drive(kernel, ch, log, res)
+            else:
                 v = _drive(kernel, ch, log, res)
                 if v is None:
-                    v = _check_s3(s3, cluster, bucket, keys, sent, receipts, fin_results)
+                    # finalise after every write has returned
+                    kernel.spawn(fprefix, lambda: fin_body(keys))
+                    v = _drive(kernel, ch, log, res)
+            if v is None:
+                v = _check_s3(s3, cluster, bucket, [k for k in keys if receipts[k]], sent, receipts, fin_results)
         except HarnessError:
             raise
         except Exception as e:  # pylint: disable=broad-except
@@ -371,6 +406,7 @@ def _exec_sink(record: dict, ch: Chooser, log: Digest) -> Outcome:
     cfg, wl = record["config"], record["workload"]
     probes = {"mkdir_lost_race": 0, "sink_cross_device": int(cfg.get("place") == "xdev"), "sink_empty_nonfirst_part": 0, "sink_pickled_copy": 0, "scenario_sink": 1, "sink_keep_parts": int(bool(cfg.get("keep_parts")))}
     sizes = {int(k): v_ for k, v_ in wl["sizes"].items()}
+    pbase = int(wl.get("part_base", 0))
     root, dst, pb, cleanup, cwd = _mk_dirs(cfg)
     kernel = K.Kernel(trace_files=_trace_files())
     K.activate(kernel)
@@ -413,7 +449,7 @@ def _exec_sink(record: dict, ch: Chooser, log: Digest) -> Outcome:
                         for p in parts:
                             data = _data(p, sizes[p])
                             sent[p] = data
-                            receipts[p] = copies[t](p, data)
+                            receipts[p] = copies[t](p + pbase, data)
                         return True
 
                     kernel.spawn(f"T{t}", body)
@@ -421,7 +457,7 @@ def _exec_sink(record: dict, ch: Chooser, log: Digest) -> Outcome:
                 v = _drive(kernel, ch, log, res)
             if v is None:
                 for p, r in sorted(receipts.items()):
-                    if not isinstance(r, dict) or r.get("PartNumber") != p:
+                    if not isinstance(r, dict) or r.get("PartNumber") != p + pbase:
                         v = Violation(PROP, "O18.6", "receipt-part-number", {"part": p, "receipt": repr(r)[:200]})
                         break
             if v is None:
@@ -579,7 +615,11 @@ def candidates(record: dict) -> Iterable[dict]:
                     c = copy.deepcopy(record)
                     c["workload"]["sizes"][p] = nsz
                     yield c
-    for k, simple in (("second_object", False), ("copy_per_task", False), ("prepped", True), ("keep_parts", None), ("place", "default"), ("limits", {}), ("dst_as_str", False), ("kw", {})):
+    if wl.get("part_base"):
+        c = copy.deepcopy(record)
+        c["workload"]["part_base"] = 0
+        yield c
+    for k, simple in (("overlap_lifecycles", False), ("second_object", False), ("copy_per_task", False), ("prepped", True), ("keep_parts", None), ("place", "default"), ("limits", {}), ("dst_as_str", False), ("kw", {})):
         if k in cfg and cfg[k] != simple:
             c = copy.deepcopy(record)
             c["config"][k] = simple
